@@ -296,6 +296,41 @@ WVOCAB = {
     "opaque": {},
 }
 
+def m_con_is_terminal(em, e, rt, rty, env, k):
+    if e.args:
+        raise EmitError("is_terminal takes no argument")
+    return k("(con_is_terminal %s %s)" % (em.v["config_param"][0], rt), ("bool",), env)
+
+
+def m_con_lock(em, e, rt, rty, env, k):
+    if e.args:
+        raise EmitError("lock takes no argument")
+    return k("(con_lock %s)" % rt, CONSOLE, env)
+
+
+# wincon.rs: WinconStream::{new, into_inner, is_terminal, lock}: the raw stream (`S`, Stdout, StdoutLock, ..) is the scripted
+# console; what it answers to is_terminal() is the config parameter (as for StripStream in tools/gen_fn_auto.py);
+# `state: Default::default()` of the Box<WinconBytes> field is ws_new (Model/WinconStream.v; = the TRANSLATED
+# WinconBytes::new, Proofs/WinconStreamGen.v ws_new_is_translated_new)
+WV_CTOR = {
+    "config_param": ("cf", "acfg"),
+    "reserved": ["cf"],
+    "type_alias": {n: CONSOLE for n in ("S", "Stdout", "Stderr", "StdoutLock", "StderrLock")},
+    "enums": {},
+    "structs": {
+        "WinconBytes": {"coq": "wstream", "var": "wb", "fields": {}, "check": False},
+        "WinconStream": {"coq": "wcstream", "var": "ws", "ctor": ("mkWCS", ["raw", "state"]), "fields": {
+            "raw": ("wcs_raw", "set_wcs_raw", CONSOLE),
+            "state": ("wcs_state", "set_wcs_state", WBYTES),
+        }},
+    },
+    "defaults": {repr(WBYTES): "ws_new"},
+    "consts": {},
+    "fns": {},
+    "methods": {("coq", "is_terminal"): m_con_is_terminal, ("coq", "lock"): m_con_lock},
+    "opaque": {},
+}
+
 WHEADER = "(* GENERATED by tools/gen_fn_stream.py (tools/rs2v) from crates/anstream/src/wincon.rs -- do not edit *)"
 WREQ = """From Coq Require Import NArith List Bool.
 From AV Require Import Generated.Table Spec.Utf8 Spec.Vt Spec.Sgr Spec.Io Model.Base Model.Imp Model.Utf8parse Model.Parser
@@ -325,6 +360,14 @@ def register_wincon(generators, gm):
                 ("write_all", "WinconStream", "g_wcs_write_all", tr),
                 ("write_fmt", "WinconStream", "g_wcs_write_fmt", tr),
             ], WHEADER, WREQ, {})
+            # the constructors / accessors: WinconStream::{new, into_inner, is_terminal, lock (Stdout), lock (Stderr)}
+            out += "\n" + translate(src, WV_CTOR, [
+                ("new", "WinconStream", "g_wcs_new", {}),
+                ("into_inner", "WinconStream", "g_wcs_into_inner", {}),
+                ("is_terminal", "WinconStream", "g_wcs_is_terminal", {}),
+                ("lock", "WinconStream", "g_wcs_lock_stdout", {"target_arg": "Stdout", "key": "WinconStream::lock_stdout"}),
+                ("lock", "WinconStream", "g_wcs_lock_stderr", {"target_arg": "Stderr", "key": "WinconStream::lock_stderr"}),
+            ], "", "", {})
             for name, pin in (("new", PIN_ADAPTER_NEW), ("write_fmt", PIN_ADAPTER_WRITE_FMT), ("write_str", PIN_ADAPTER_WRITE_STR)):
                 h = token_hash(fn_source(fmt, name, "Adapter"))
                 if h != pin:
